@@ -382,8 +382,14 @@ pub fn run(ctx: &mut Ctx) {
         ctx.emit(&q, &ans);
     }
 
-    // ---- the real direct forwarder behind the dispatch: which refusal code a destination gets ------------------
-    // (outbound connects are recorded and failed by the door's stub, so nothing leaves the machine)
+    run_real(ctx);
+}
+
+/// the real direct forwarder behind the dispatch: which refusal code a destination gets, for CONNECT and for plain-HTTP
+/// requests whose authority has a port or leaves it out (outbound connects are recorded and failed by the door's stub,
+/// so nothing leaves the machine). Also runs as suite `c10real` (for C03: how a policy refusal is reported).
+pub fn run_real(ctx: &mut Ctx) {
+    quiet_panics();
     {
         use trusttunnel::verif::hooks;
         let literals: Vec<std::net::SocketAddr> = [
@@ -428,7 +434,21 @@ pub fn run(ctx: &mut Ctx) {
                     let toks: Vec<String> = ips.iter().map(|i| format!("{} 443", ip_tokens(&i.parse().unwrap()))).collect();
                     targets.push((format!("{}:443", n), format!("host {} {}", ips.len(), toks.join(" ")).trim_end().to_string()));
                 }
-                for (authority, qtail) in targets {
+                // plain-HTTP requests to the same destinations: with the port spelled out, and without it (port 80)
+                let mut plain: Vec<(String, String, String)> = vec![];
+                for a in &literals {
+                    let host = if a.is_ipv6() { format!("[{}]", a.ip()) } else { a.ip().to_string() };
+                    plain.push((format!("{}:{}", host, a.port()), format!("addr {} {}", ip_tokens(&a.ip()), a.port()), "GET".into()));
+                    // (an authority without a port is not a socket address: it goes in as a name, which resolves to itself)
+                    plain.push((host, format!("host 1 {} 80", ip_tokens(&a.ip())), "GET".into()));
+                }
+                for (n, ips) in &names {
+                    let toks: Vec<String> = ips.iter().map(|i| format!("{} 443", ip_tokens(&i.parse().unwrap()))).collect();
+                    plain.push((n.to_string(), format!("host {} {}", ips.len(), toks.join(" ")).trim_end().to_string(), "POST".into()));
+                }
+                let all: Vec<(String, String, String)> =
+                    targets.into_iter().map(|(a, q)| (a, q, "CONNECT".to_string())).chain(plain.into_iter()).collect();
+                for (authority, qtail, method) in all {
                     hooks::reset();
                     {
                         let mut st = hooks::STATE.lock().unwrap();
@@ -437,16 +457,20 @@ pub fn run(ctx: &mut Ctx) {
                             st.resolver.insert(n.to_string(), Ok(ips.iter().map(|i| std::net::SocketAddr::new(i.parse().unwrap(), 443)).collect()));
                         }
                     }
-                    let raw = format!("CONNECT {} HTTP/1.1\r\nHost: {}\r\n\r\n", authority, authority).into_bytes();
+                    let raw = if method == "CONNECT" {
+                        format!("CONNECT {} HTTP/1.1\r\nHost: {}\r\n\r\n", authority, authority).into_bytes()
+                    } else {
+                        format!("{} http://{}/x HTTP/1.1\r\nHost: {}\r\nContent-Length: 0\r\n\r\n", method, authority, authority).into_bytes()
+                    };
                     let rt = tokio::runtime::Builder::new_current_thread().enable_all().start_paused(true).build().unwrap();
                     let out = rt.block_on(h1_session(&core, "localhost", None, raw, 2_000));
                     let (status, headers, _) = parse_resp_h1(&out);
                     let host_ok = headers.get("x-adguard-vpn-error").map(|v| *v == authority).unwrap_or(true);
                     if !host_ok {
-                        ctx.oracle_failure("dns_error_host", &format!("CONNECT {}: X-Adguard-Vpn-Error names {:?}", authority, headers.get("x-adguard-vpn-error")));
+                        ctx.oracle_failure("dns_error_host", &format!("{} {}: X-Adguard-Vpn-Error names {:?}", method, authority, headers.get("x-adguard-vpn-error")));
                     }
                     ctx.emit(&format!("c10 real {} {} {}", allow as u8, v6ok as u8, qtail), &resp_tok(status, &headers));
-                    ctx.stat("real_forwarder_refusal_codes");
+                    ctx.stat(if method == "CONNECT" { "real_forwarder_refusal_codes" } else { "real_forwarder_refusal_codes_plain_http" });
                 }
                 hooks::reset();
             }
